@@ -62,6 +62,8 @@ class Rec:
         self.iters = []  # weakrefs of all successfully constructed iterators, in order
         self.render_fault = None  # [k, exc class]
         self.resolve_fault = None
+        self.fin_fault = None
+        self.n_fin = 0
         self.n_resolve = 0
         self.n_render = 0
         self.totals = {}  # idx -> [finCalls, libFin, viaDel, renders, usedAfter]
@@ -128,6 +130,7 @@ class R(Renderable):
     def __init__(self, fc):
         super().__init__(FrameCount.INDEFINITE if fc == 0 else fc, 1)
         self.size = Size(2, 2)
+        self.live = []
 
     def _get_render_size_(self):
         return self.size
@@ -139,6 +142,9 @@ class R(Renderable):
 
     def _get_render_data_(self, *, iteration):
         d = super()._get_render_data_(iteration=iteration)
+        # a reference to every RenderData handed out, kept until the running operation has returned or
+        # raised: whatever is finalized before that was finalized by code, not by `RenderData.__del__`
+        self.live.append(d)
         r = REC
         r.ids[id(d)] = r.n_objs
         r.events.append(f"c{r.n_objs}")
@@ -155,6 +161,10 @@ class R(Renderable):
         t[0] += 1
         t[1] += by == "l"
         t[2] += by == "d"
+        k = r.n_fin
+        r.n_fin += 1
+        if r.fin_fault and r.fin_fault[0] == k:
+            raise r.fin_fault[1]("injected")  # the finalizer itself fails (after having run)
         super()._finalize_render_data_(render_data)
 
     def _render_(self, render_data, render_args):
@@ -248,6 +258,8 @@ class History:
         r = self.r
         if n == "render":
             r.render()
+        elif n == "str":
+            str(r)
         elif n == "initRender":
             it, fin, cs, asc, rp = (x == "1" for x in op[1:6])
             r.styled_render(it, fin, cs, asc, AlignedPadding(0, -2) if rp else ExactPadding())
@@ -299,6 +311,8 @@ class History:
         rec.render_fault = None
         rec.resolve_fault = None
         rec.n_resolve = 0
+        rec.fin_fault = None
+        rec.n_fin = 0
         rec.by = "l"
         wfault = cwfault = None
         self.r.size = Size(2, 2)
@@ -310,6 +324,8 @@ class History:
                 wfault = [k, EXC[exc]]
             elif tgt == "cwrite":
                 cwfault = [k, EXC[exc]]
+            elif tgt == "finhook":
+                rec.fin_fault = [k, EXC[exc]]
             elif tgt == "resolve":
                 rec.resolve_fault = [k, EXC[exc]]
             elif tgt == "validate":
@@ -334,6 +350,7 @@ class History:
         if op[0] == "initRender" and op[2] == "0" and rec.n_objs > n_before:
             self.owner[n_before] = "c"  # finalize=False: the data stays the subclass operation's
         sys.last_exc = sys.last_value = sys.last_traceback = None
+        self.r.live.clear()  # from here on `RenderData.__del__` may run
         gc.collect()
         evs = [e for e in rec.events if not e.endswith(":d")] + sorted(
             (e for e in rec.events if e.endswith(":d")), key=lambda s: int(s[1:-2]))
@@ -357,12 +374,15 @@ class History:
         global REC
         self.it.clear()
         self.held.clear()
+        self.r.live.clear()
         gc.collect()
         REC = None
         # whatever survives a history (the generated cases, results) must not be rescanned by the
         # per-operation gc.collect() of the following ones
         gc.freeze()
 
+
+sys.unraisablehook = lambda *a: None  # a finalizer that raises inside a `__del__` is ignored by CPython
 
 gc.collect()
 gc.freeze()  # keeps the per-operation gc.collect() cheap: only objects made from here on are scanned
@@ -373,6 +393,28 @@ def exc_class(name):
     return {**EXC, "ValueError": ValueError, "RenderSizeOutofRangeError": RenderSizeOutofRangeError,
             "StopDefiniteIterationError": RI.StopDefiniteIterationError,
             "FinalizedIteratorError": RI.FinalizedIteratorError}[name]
+
+
+def real_finseq(calls):
+    """`RenderData.finalize()` n times on one object; calls = [[by, raises?], …] (driver op `finseq`)"""
+    h = History(2)
+    try:
+        data = h.r._get_render_data_(iteration=True)
+        h.r.live.clear()
+        outs = []
+        for by, raises in calls:
+            h.rec.n_fin = 0
+            h.rec.fin_fault = [0, Boom] if raises else None
+            try:
+                data.finalize()
+                outs.append("ok")
+            except Boom:
+                outs.append("err Boom")
+        n = h.rec.tot(0)[0]
+        return "ok " + "|".join(outs) + f" # {n} {int(bool(data.finalized))}"
+    finally:
+        h.rec.fin_fault = None
+        h.finish()
 
 
 def real_iterparams(fc, loops, cache):
@@ -441,7 +483,7 @@ def draw_terminates(fc, animate, loops, cache, fault):
     tgt, k, _ = fault
     if tgt == "write":
         return True
-    if tgt == "cwrite":
+    if tgt in ("cwrite", "finhook"):
         return False  # the clean-up is reached only when the animation has ended
     if tgt in ("validate", "resolve"):
         return k == 0  # draw validates animations (both comparisons), but only k = 0 is certain to fire
@@ -455,15 +497,34 @@ def exhaustive(max_fc):
         faults = [None] + [("render", k, e) for k in range(0, 2 * max(fc, 1) + 2) for e in RENDER_EXC]
         wfaults = [("write", k, e) for k in range(0, 4 * max(fc, 1) + 4) for e in WRITE_EXC]
         vfault = [("validate", 0, "RenderSizeOutofRangeError"), ("validate", 1, "RenderSizeOutofRangeError"),
-                  ("resolve", 0, "Boom"), ("cwrite", 0, "Boom"), ("cwrite", 0, "KeyboardInterrupt")]
-        for f in faults:
+                  ("resolve", 0, "Boom"), ("cwrite", 0, "Boom"), ("cwrite", 0, "KeyboardInterrupt"),
+                  ("finhook", 0, "Boom")]
+        hook = ("finhook", 0, "Boom")
+        for f in faults + [hook]:
             yield mk_case(fc, [(("render",), f)], "x-render")
+            yield mk_case(fc, [(("str",), f), (("render",), None)], "x-str")
+        # a finalizer that raises: in every operation that finalizes, then a second finalize from someone else
+        yield mk_case(fc, [(("mkData", "1"), None), (("cfin", "0"), hook), (("cfin", "0"), None), (("cdrop", "0"), None)],
+                      "x-finhook")
+        yield mk_case(fc, [(("mkData", "1"), None), (("cdrop", "0"), hook)], "x-finhook")
+        if fc != 1:
+            for args in ARGS_KINDS:
+                yield mk_case(fc, [(("mkData", "1"), None), (("fromData", "0", "1", "1", "off", args), None),
+                                   (("next", "0"), None), (("close", "0"), hook), (("dropIter", "0"), None),
+                                   (("cfin", "0"), None), (("cdrop", "0"), None)], "x-finhook")
+            for end in ("close", "dropIter"):
+                yield mk_case(fc, [(("iterNew", "1", "off"), None), (("next", "0"), None), ((end, "0"), hook)]
+                              + ([(("dropIter", "0"), None)] if end == "close" else []), "x-finhook")
+            if fc > 1:
+                yield mk_case(fc, [(("iterNew", "1", "off"), None)] + [(("next", "0"), None)] * fc
+                              + [(("next", "0"), hook), (("dropIter", "0"), None)], "x-finhook")
         if fc in (1, 3):
             # a subclass operation on `_init_render_`: all flag combinations × a fault at every place
             for bits in range(32):
                 it, fin, cs, asc, rp = (str((bits >> j) & 1) for j in range(5))
                 fl = [None, ("validate", 0, "RenderSizeOutofRangeError"), ("validate", 1, "RenderSizeOutofRangeError"),
-                      ("resolve", 0, "Boom"), ("render", 1, "Boom")] + [("render", 0, e) for e in RENDER_EXC]
+                      ("resolve", 0, "Boom"), ("render", 1, "Boom"), ("finhook", 0, "Boom")] \
+                    + [("render", 0, e) for e in RENDER_EXC]
                 for f in fl:
                     yield mk_case(fc, [(("initRender", it, fin, cs, asc, rp), f), (("render",), None)],
                                   "x-initRender-" + (f[0] if f else "nofault"))
@@ -539,7 +600,7 @@ def random_history(rng):
     try:
         for _ in range(rng.randrange(2, 16)):
             its, datas = sorted(h.it), sorted(h.held)
-            menu = ["render", "draw", "draw", "iterNew", "iterNew", "mkData", "initRender", "initRender"]
+            menu = ["render", "str", "draw", "draw", "iterNew", "iterNew", "mkData", "initRender", "initRender"]
             if its:
                 menu += ["next"] * 8 + ["close", "seek", "seek", "bump", "dropIter"]
             if datas:
@@ -552,7 +613,7 @@ def random_history(rng):
             dd = str(rng.choice(datas) if datas and rng.random() < 0.95 else rng.randrange(0, h.rec.n_objs + 2))
             loops = rng.choice([1, 1, 2, 3, -1, 0])
             cache = rng.choice(CACHES)
-            if kind in ("render", "draw", "next") and rng.random() < 0.5:
+            if kind in ("render", "str", "draw", "next") and rng.random() < 0.5:
                 fault = ("render", rng.randrange(0, 2 * max(fc, 1) + 2) if kind == "draw" else rng.randrange(0, 2),
                          rng.choice(RENDER_EXC))
             if kind == "draw" and rng.random() < 0.3:
@@ -563,8 +624,10 @@ def random_history(rng):
                 op = ("initRender",) + tuple(str(rng.randrange(2)) for _ in range(5))
                 fault = rng.choice([None, None, ("validate", rng.randrange(2), "RenderSizeOutofRangeError"),
                                     ("resolve", 0, "Boom"), ("render", 0, rng.choice(RENDER_EXC))])
-            elif kind == "render":
-                op = ("render",)
+            elif kind in ("render", "str"):
+                op = (kind,)
+                if rng.random() < 0.1:
+                    fault = ("finhook", 0, "Boom")
             elif kind == "draw":
                 animate = rng.random() < 0.7
                 if not draw_terminates(fc, animate, loops, cache, fault):
@@ -581,6 +644,8 @@ def random_history(rng):
                 op = ("seek", ii, str(rng.randrange(0, max(fc, 1) + 1)))
             elif kind in ("cfin", "cdrop"):
                 op = (kind, dd)
+                if rng.random() < 0.15:
+                    fault = ("finhook", 0, "Boom")
             else:
                 op = (kind, ii)
             ops.append((op, fault))
@@ -606,7 +671,7 @@ class C10(Property):
         "iterator's `_render_data` are gone (model: `dropRefs`)",
         "the caller does not finalize, or hand to a second iterator, data that an open iterator is using",
     ]
-    quick_cases = 16000
+    quick_cases = 17000
     thorough_cases = 150000
 
     def gen_constants(self):
@@ -658,6 +723,13 @@ class C10(Property):
                 for cache in CACHES + ["upto 4", "upto 5", "upto 6"]:
                     yield Case(f"iterparams {fc} {loops} {cache}", {"fc": fc, "loops": loops, "cache": cache},
                                "x-iterparams", True)
+        # every raise pattern of up to 4 finalize() calls on one object
+        for n in range(1, 5):
+            for bits in range(2 ** n):
+                calls = [["lcd"[j % 3], bool((bits >> j) & 1)] for j in range(n)]
+                line = f"finseq {n} " + " ".join(
+                    f"{b} " + ("fault finhook 0 Boom" if r else "nofault") for b, r in calls)
+                yield Case(line, {"calls": calls}, "x-finseq", True)
         for name in ("StopIteration", "AttributeError", "ValueError", "RenderSizeOutofRangeError",
                      "StopDefiniteIterationError", "FinalizedIteratorError", "Boom", "KeyboardInterrupt"):
             yield Case(f"isexc {name}", {"name": name}, "x-isexc", True)
@@ -674,6 +746,8 @@ class C10(Property):
         op = case.line.split(" ", 1)[0]
         if op == "iterparams":
             return real_iterparams(**case.data)
+        if op == "finseq":
+            return real_finseq(case.data["calls"])
         if op == "isexc":
             return "ok " + str(int(issubclass(exc_class(case.data["name"]), Exception)))
         fc, ops = parse_hist(case.data)
@@ -695,6 +769,9 @@ def check_log(fc, ops, outs):
     for n, ((op, fault), out) in enumerate(zip(ops, outs)):
         outcome, evs, mask = out.split("/")
         where = f"{op[0]}/fc={fc}/" + ("nofault" if not fault else f"{fault[0]}@{fault[1]}:{fault[2]}")
+        # a finalizer that raises inside close() aborts it (outside the property's fault sequences):
+        # only the once-only and promptness clauses are judged for such an operation
+        hook_fault = bool(fault) and fault[0] == "finhook"
         for e in filter(None, evs.split(",")):
             kind, rest = e[0], e[1:]
             if kind == "c":
@@ -734,21 +811,22 @@ def check_log(fc, ops, outs):
                     if evs:
                         return Failure(f"closed-iterator-acts/{where}", f"op #{n}: events on a closed iterator: {evs}")
                 elif op[0] == "next" and outcome.startswith("err ") and outcome[4:] in EXCEPTION_NAMES \
-                        and mask[i] != "1":
+                        and mask[i] != "1" and not hook_fault:
                     return Failure(f"open-after-error/{where}",
                                    f"op #{n}: next() raised {outcome[4:]} and iterator {i} is still open")
-            if op[0] in ("close", "dropIter") and outcome != "ok":
+            if op[0] in ("close", "dropIter") and outcome != "ok" and not hook_fault:
                 return Failure(f"close-raises/{where}",
                                f"op #{n}: {op[0]} raised `{outcome}` (close() is safe for multiple invocations)")
-            if op[0] in ("close", "dropIter") and int(op[1]) < len(mask) and mask[int(op[1])] != "1":
+            if op[0] in ("close", "dropIter") and int(op[1]) < len(mask) and mask[int(op[1])] != "1" \
+                    and not hook_fault:
                 return Failure(f"open-after-close/{where}", f"op #{n}: iterator {op[1]} is open after {op[0]}")
             # promptness where the code promises it: `_init_render_(finalize=True)` (render() too) has
             # finalized its data itself when it returns or raises — not left it to `RenderData.__del__`
-            if op[0] == "render" or (op[0] == "initRender" and op[2] == "1"):
+            if op[0] in ("render", "str") or (op[0] == "initRender" and op[2] == "1"):
                 for e in filter(None, evs.split(",")):
                     if e[0] == "c" and f"f{e[1:]}:l" not in evs.split(","):
                         return Failure(f"not-prompt/{where}/flags={''.join(op[1:])}",
-                                       f"op #{n}: `_init_render_(finalize=True)` returned/raised ({outcome}) without "
+                                       f"op #{n}: {op[0]} (`_init_render_(finalize=True)`) returned/raised ({outcome}) without "
                                        f"having finalized its render data (object {e[1:]}); events: {evs}")
             # draw() finalizes its data itself before it returns or raises; the exceptions of the unchanged code:
             # a failure inside `_init_render_(finalize=False)` (padding resolution, size validation), which
@@ -760,7 +838,7 @@ def check_log(fc, ops, outs):
                                        f"op #{n}: draw() returned/raised ({outcome}) without having finalized its "
                                        f"render data (object {e[1:]}); events: {evs}")
             # data of finished operations: finalized exactly once by now
-            if op[0] in ("render", "draw", "initRender"):
+            if op[0] in ("render", "str", "draw", "initRender"):
                 for e in filter(None, evs.split(",")):
                     if e[0] == "c" and fin.get(int(e[1:]), 0) != 1:
                         return Failure(f"not-finalized/{where}",
